@@ -148,7 +148,7 @@ func (viso *VirtualISO) init() error {
 }
 
 func (viso *VirtualISO) getTitleID() (string, error) {
-	f, err := viso.fs.Open(filepath.Join(viso.root, paramSFOPath))
+	f, _, err := openNoWait(viso.fs, filepath.Join(viso.root, paramSFOPath), os.O_RDONLY, 0)
 	if err != nil {
 		return "", fmt.Errorf("param.sfo open failed: %w", err)
 	}
